@@ -219,6 +219,127 @@ def r2_unsafe_census(ctx):
         r.check(ok, 'validate|try_from', tf.file, 'BytesStr::try_from builds the value only on the Ok edge of std::str::from_utf8')
 
 
+P = 'proto::streams::'
+PRIO = P + 'prioritize::Prioritize'
+IFD = P + 'prioritize::InFlightData'
+
+
+def r3_flush_handover(ctx):
+    r = ctx.rule('C20.R3', 'GUARD', 'the unlocked flush hand-over: in-flight DATA marker written at buffer time, consumed at reclaim, dropped on clear_queue; flush outside every lock')
+    F = ctx.facts
+    # writers of Prioritize.in_flight_data_frame by variant
+    writers = {}
+    for name, f in F.fns.items():
+        if '::tests::' in name:
+            continue
+        for bi, si, pl, rv, ln in f.stmts():
+            if core.write_target(f, pl) == (PRIO, 'in_flight_data_frame'):
+                e = core.strip(f.expr_of_rvalue(rv))
+                v = e[2].split('::')[-1] if e[0] == 'aggr' else '?'
+                writers.setdefault(v, []).append((name, f, bi))
+    bp = r.fn(PRIO + '::buffer_pending')
+    r.check(sorted(n for n, f, b in writers.get('DataFrame', [])) == [PRIO + '::buffer_pending'], 'marker|who|DataFrame', '', 'InFlightData::DataFrame is written only in buffer_pending: %s' % sorted(n for n, f, b in writers.get('DataFrame', [])))
+    r.check(sorted(set(n for n, f, b in writers.get('Drop', []))) == [PRIO + '::clear_queue'], 'marker|who|Drop', '', 'InFlightData::Drop is written only in clear_queue: %s' % sorted(set(n for n, f, b in writers.get('Drop', []))))
+    if bp:
+        bufs = [bi for bi, t in bp.calls_to('codec::Codec::buffer')]
+        for n, f, b in writers.get('DataFrame', []):
+            arm = core.edges_where(F, bp, lambda sw: sw.kind == 'variant' and sw.adt == 'frame::Frame', lambda l: l == frozenset(['Data']))
+            ok = bool(bufs) and bool(arm) and bp.dominated_by_edges(b, arm) and any(x in bp.reachable(bp.succ[b]) for x in bufs)
+            # nothing between the marker and Codec::buffer may return
+            reach = bp.reachable(bp.succ[b], cut_blocks=bufs)
+            ok = ok and not any(x in reach for x in bp.returns())
+            r.check(ok, 'marker|set-with-buffer', bp.loc(b), 'the marker is set for Frame::Data only and is always followed by Codec::buffer')
+        # reclaim before accepting another frame: every Codec::buffer is followed by reclaim_frame before the next pop_frame
+        rec = [bi for bi, t in bp.calls_to(PRIO + '::reclaim_frame')]
+        pops = [bi for bi, t in bp.calls_to(PRIO + '::pop_frame')]
+        ok = bool(rec) and bool(pops)
+        for b in bufs:
+            reach = bp.reachable(bp.succ[b], cut_blocks=rec)
+            if any(p in reach for p in pops):
+                ok = False
+        r.check(ok, 'reclaim|before-next-frame', bp.file, 'after Codec::buffer the frame is reclaimed before the next pop_frame (single codec slot)')
+        r.check(bool(rec) and all(bp.dominated_by_blocks(p, rec) for p in pops), 'reclaim|at-entry', bp.file, 'buffer_pending reclaims a previously written frame before popping')
+    cq = r.fn(PRIO + '::clear_queue')
+    if cq:
+        ds = [b for n, f, b in writers.get('Drop', []) if n == cq.name]
+        edges = core.edges_where(F, cq, lambda sw: core.cmp_of(sw) is not None and core.cmp_of(sw)[0] == 'Eq' and any(x[0] == 'call' and x[1].endswith('store::Ptr::key') for x in core.walk(sw.subject)), lambda l: l is True)
+        r.check(bool(ds) and bool(edges) and all(cq.dominated_by_edges(d, edges) for d in ds), 'marker|drop-own-key', cq.file, 'clear_queue marks the in-flight frame as dropped only when it belongs to the stream being cleared')
+    ri = r.fn(PRIO + '::reclaim_frame_inner')
+    if ri:
+        rs = [bi for bi, t in ri.calls(lambda t: t['fn'].endswith('Resolve>::resolve') or t['fn'] == P + 'store::Store::resolve')]
+        dropedges = core.edges_where(F, ri, lambda sw: sw.kind == 'variant' and sw.adt == IFD, lambda l: l == frozenset(['Drop']))
+        dfedges = core.edges_where(F, ri, lambda sw: sw.kind == 'variant' and sw.adt == IFD, lambda l: l == frozenset(['DataFrame']))
+        ok = bool(rs) and bool(dropedges) and bool(dfedges) and all(ri.dominated_by_edges(x, dfedges) for x in rs)
+        for (a, b) in dropedges:
+            if any(x in ri.reachable([b]) for x in rs):
+                ok = False
+        r.check(ok, 'reclaim|no-resolve-after-drop', ri.file, 'reclaim_frame_inner resolves the stream key only in the DataFrame arm (a cancelled stream may already be gone)')
+        rep = ri.calls(lambda t: t['fn'] == 'std::mem::replace')
+        r.check(bool(rep), 'reclaim|consumes-marker', ri.file, 'the marker is consumed (mem::replace with Nothing)')
+    pc = r.fn(P + 'streams::Streams::poll_complete')
+    if pc:
+        L = locks.LockFacts(F)
+        IN = L.held(pc)
+        fl = [bi for bi, t in pc.calls(lambda t: t['fn'] in ('codec::Codec::flush', 'codec::Codec::poll_ready'))]
+        r.floor(len(fl), 2, 'transport calls (poll_ready, flush) in Streams::poll_complete')
+        for b in fl:
+            r.check(IN[b] is not None and not IN[b], 'flush|unlocked', pc.loc(b), '%s runs with no h2 mutex held (handles on other threads can make progress during socket I/O)' % pc.term(b)['fn'].split('::')[-1])
+        rw = [bi for bi, t in pc.calls_to(P + 'streams::Inner::reclaim_written_frame')]
+        bpn = [bi for bi, t in pc.calls_to(P + 'streams::Inner::buffer_pending')]
+        flush = [bi for bi, t in pc.calls_to('codec::Codec::flush')]
+        ok = bool(rw) and bool(bpn) and bool(flush)
+        for fb in flush:
+            reach = pc.reachable(pc.succ[fb], cut_blocks=rw)
+            if any(x in reach for x in bpn):
+                ok = False
+        r.check(ok, 'flush|reclaim-after-relock', pc.file, 'after the unlocked flush the written frame is reclaimed before buffer_pending runs again')
+
+
+def r5_poison(ctx):
+    r = ctx.rule('C20.R5', 'GUARD', 'poison tolerance in Drop paths')
+    F = ctx.facts
+    d = r.fn(P + 'streams::drop_stream_ref')
+    if d:
+        pan = [bi for bi, t in d.calls(lambda t: t['fn'].startswith('core::panicking::') and not t['exp'].startswith('debug_assert') if t['exp'] else t['fn'].startswith('core::panicking::'))]
+        pk = core.guard_edges(F, d, ['std::thread::panicking'], lambda l: l is False)
+        okp = bool(pk)
+        for b in pan:
+            if d.term(b)['exp'] and 'panic' in d.term(b)['exp']:
+                if not d.dominated_by_edges(b, pk):
+                    okp = False
+        r.check(okp, 'drop_stream_ref|no-double-panic', d.file, 'drop_stream_ref panics on a poisoned lock only when not already panicking')
+        uw = [bi for bi, t in d.calls(lambda t: t['fn'] in ('std::result::Result::unwrap', 'std::result::Result::expect'))]
+        for b in uw:
+            e = d.expr_of_op(d.term(b)['a'][0])
+            r.check(not core.contains_call(e, 'std::sync::Mutex::lock'), 'drop_stream_ref|no-unwrap-lock', d.loc(b), 'the lock result is matched, not unwrapped')
+    for fname in ('<' + P + 'streams::Streams as std::ops::Drop>::drop', '<proto::connection::Connection as std::ops::Drop>::drop', P + 'streams::DynStreams::recv_eof'):
+        f = r.fn(fname)
+        if not f:
+            continue
+        bad = []
+        for bi, t in f.calls(lambda t: t['fn'] in ('std::result::Result::unwrap', 'std::result::Result::expect')):
+            e = f.expr_of_op(t['a'][0])
+            if core.contains_call(e, 'std::sync::Mutex::lock') or core.contains_call(e, P + 'streams::Streams::recv_eof'):
+                bad.append(bi)
+        r.check(not bad, 'no-unwrap|' + fname.split('::')[-3 if 'Drop' in fname else -2] + '::' + fname.split('::')[-1], f.file, '%s does not unwrap a lock result (a poisoned mutex must not abort the process during unwinding)' % fname)
+
+
+def r2b_send_witness(ctx):
+    from .. import run as runner
+    r = ctx.rule('C20.R2b', 'TYPE', 'the public handles are Send (+Sync) for Send parameters: type-checked by rustc against the current tree')
+    if ctx.facts.config != 'su-dbg':
+        return      # one compilation per run is enough: auto traits do not depend on the analysed configuration
+    ok, detail, secs = runner.witness_check(doc=False)
+    r.stat('seconds', int(secs))
+    r.check(ok, 'handles-are-send', 'witness/src/lib.rs', 'cargo check of the witness crate (21 Send / Sync obligations on client, server and share handles): %s' % detail)
+    if ctx.tier == 'thorough':
+        ok2, detail2, secs2 = runner.witness_check(doc=True)
+        r.check(ok2, 'send-is-derived', 'witness/src/lib.rs', 'compile_fail,E0277 witnesses with compiling twins (SendStream / SendRequest / SendResponse over a !Send buffer): %s' % detail2)
+
+
 def run(ctx):
     L = r1_lock_order(ctx)
     r2_unsafe_census(ctx)
+    r2b_send_witness(ctx)
+    r3_flush_handover(ctx)
+    r5_poison(ctx)
